@@ -32,6 +32,7 @@ def plan(tier, seed):
     nat = [c for c in N.COUNTRIES if c in table]
     other = [c for c in sorted(table) if c not in N.LENGTHS and c != "DE"]
     shards = [{"kind": "nat", "countries": [c], "tier": tier, "_name": f"nat-{c}"} for c in nat]
+    shards.append({"kind": "mixed", "countries": nat, "tier": tier, "_name": "nat-mixed"})
     for i, ch in enumerate(gen.chunk(other, 6 if tier == "quick" else 16)):
         shards.append({"kind": "other", "countries": ch, "tier": tier, "_name": f"other-{i}"})
     shards.append({"kind": "contracts", "tier": tier, "_name": "contracts"})
@@ -115,6 +116,33 @@ def run_nat(shard, mon, S, table):
         mon.sample({"country": cc, "forced_valid_example": R.make_iban(cc, N.force_valid(cc, gen.random_bban(spec, rng)) or "")})
 
 
+def run_mixed(shard, mon, S, table):
+    """All national-algorithm countries interleaved in ONE process, fed with the same digit strings so that
+    equally long bodies coincide: state shared between countries' algorithm objects would show here."""
+    rng = env.rng("C06", "mixed")
+    n = 40 if shard["tier"] == "quick" else 1500
+    for k in range(n):
+        D = "".join(rng.choice(R.DIGITS) for _ in range(40))
+        order = list(shard["countries"])
+        rng.shuffle(order)
+        for cc in order:
+            spec = table[cc]
+            if N.LENGTHS.get(cc) != spec["bban_length"]:
+                continue
+            b = N.body_fill(cc, D, spec["bban_length"])
+            fb = N.force_valid(cc, b)
+            if fb is None or not R.matches_spec(spec["bban_spec"], fb):
+                continue
+            judge_one(mon, S, cc, fb, table, "mixed")
+            if cc in N.CHECK_FIELD:
+                s_, e_ = N.CHECK_FIELD[cc]
+                cls = R.position_classes(spec["bban_spec"])[s_]
+                alt = fb[:s_] + "".join(cls[(cls.index(c) + 1) % len(cls)] for c in fb[s_:e_]) + fb[e_:]
+                judge_one(mon, S, cc, alt, table, "mixed-twin")
+    mon.tally("mixed_rounds", n)
+    mon.sample({"mixed_digit_string": D, "countries": order[:5]})
+
+
 def run_other(shard, mon, S, table):
     sz = SIZES[shard["tier"]]
     for cc in shard["countries"]:
@@ -151,6 +179,8 @@ def run_shard(shard, out_base):
     table = data.countries()
     if shard["kind"] == "nat":
         run_nat(shard, mon, S, table)
+    elif shard["kind"] == "mixed":
+        run_mixed(shard, mon, S, table)
     else:
         run_other(shard, mon, S, table)
     # monotonicity is implied by construction (flagged call is only made on plain-valid IBANs for nat
